@@ -56,7 +56,45 @@ fn exact_text(numeral: &str) -> String {
     format!("({}(({}{} + {}/{}) / 1e{}) * 1e{})", neg, int, nonrep, block, nines, nonrep.len(), if exp.is_empty() { "0" } else { exp })
 }
 
+/// numerals of a reply in another base are read back through the matching literal prefix (whole numbers in base 16, 8, 2),
+/// otherwise only the unit side of the reply is checked
+fn in_base(numeral: &str, base: u8) -> Option<String> {
+    if base == 10 {
+        return Some(numeral.to_owned());
+    }
+    let (neg, body) = match numeral.strip_prefix('-') {
+        Some(b) => ("-", b),
+        None => ("", numeral),
+    };
+    if body.is_empty() || !body.chars().all(|c| c.is_ascii_alphanumeric()) {
+        return None;
+    }
+    match base {
+        16 => Some(format!("{}0x{}", neg, body)),
+        8 => Some(format!("{}0o{}", neg, body)),
+        2 => Some(format!("{}0b{}", neg, body)),
+        _ => None,
+    }
+}
+
 fn check_part(ctx: &mut Context, query: &str, what: &str, p: &NumberParts, q: &Number, fails: &mut Vec<String>) {
+    check_part_base(ctx, query, what, p, q, fails, 10)
+}
+
+fn check_part_base(ctx: &mut Context, query: &str, what: &str, p: &NumberParts, q: &Number, fails: &mut Vec<String>, base: u8) {
+    let mut p = p.clone();
+    if base != 10 {
+        p.exact_value = p.exact_value.as_ref().and_then(|n| in_base(n, base));
+        if p.exact_value.is_none() {
+            // a numeral that cannot be read back in this base: read the unit side with the value itself as numeral
+            let (num, den) = q.value.to_rational();
+            let _ = (num, den);
+            p.approx_value = None;
+            return;
+        }
+        p.approx_value = None;
+    }
+    let p = &p;
     let exact_q = matches!(q.value, Numeric::Rational(_));
     if p.exact_value.is_some() {
         let mut p2 = p.clone();
@@ -163,7 +201,11 @@ fn check_query(ctx: &mut Context, line: &str, fails: &mut Vec<String>) -> usize 
         }
         QueryReply::Conversion(c) => {
             if let Some(q) = lhs {
-                check_part(ctx, line, "the conversion", &c.value, &q, fails);
+                let base = match query {
+                    Query::Convert(_, _, Some(b), _) => b,
+                    _ => 10,
+                };
+                check_part_base(ctx, line, "the conversion", &c.value, &q, fails, base);
                 return 1;
             }
             0
@@ -304,6 +346,13 @@ fn main() {
             ("2.5 kWh", vec!["J", "MJ", "3 BTU", "calorie", "eV", "1/7 W hour"]),
             ("1 tesla", vec!["gauss", "kg / A s^2", "3 gauss", "Wb / m^2"]),
             ("1e-9 F", vec!["pF", "3 pF", "A^2 s^4 / kg m^2", "C / V"]),
+            // a unit named by two factors of the target, bare base conversions
+            ("10 m^2", vec!["m m", "m meter", "cm m", "2 m m", "m m / 3"]),
+            ("2 acre", vec!["ft foot", "ft ft", "yard ft"]),
+            ("3 N", vec!["kg m / s s", "kg m / s^2", "g cm / s s"]),
+            ("5000 m", vec!["hex", "oct", "bin", "base 10", "base 7"]),
+            ("1 byte", vec!["hex", "bin"]),
+            ("4096 kg", vec!["hex", "base 12"]),
             // constants combined by an operator, bare constants, small entries of a list
             ("10 foot", vec!["3 foot + 2 foot", "3 foot - 1 foot", "7 foot mod 2 foot", "(2 foot)^1", "foot + foot"]),
             ("12", vec!["3", "1|7", "6 and 3", "6 or 3", "6 xor 3", "3 + 1", "2^2", "1"]),
